@@ -93,6 +93,11 @@ func genFile(r *Rand, name, prev string) *sfile {
 
 func (stageComp) Corpus() [][]string {
 	return [][]string{
+		// a version that fails validation stays "failed" across a restart: the failed copy and its companion stay on
+		// the stage and are validated again; the receiver must not fall back to the log record of an older version of
+		// the name (seed C01c: the failed copy was deleted, the restarted receiver answered "passed")
+		{"base ?", "recover 0", "prepare f 3 0", "recv f - - 3 b1.2.3 0 3 1.2.3 0", "settle 0", "observe",
+			"prepare f 4 0", "recv f - - 4 b9.9.9.9 0 4 1.2.3.4 0", "settle 0", "status f 0 0", "crash", "recover 0 f", "settle 0", "observe", "status f 0 0"},
 		// a staging extension in the MIDDLE of a legal name (`backup.part1.rar`, a directory `x.partial`, `c.cmp.full.z`):
 		// version 1 delivered, version 2 partly received and more than a day old, then the stray cleaner: the companion
 		// of the partial is found by cutting the extension off the END of the path; the partial of a version that was
